@@ -245,6 +245,17 @@ def global_state_obligations(repo, chk):
                     root = root.value
                 if isinstance(root, ast.Name) and root.id in ("os", "sys", "np", "numpy", "math", "warnings"):
                     bad.append("line %d: store into %s" % (n.lineno, ast.unparse(n)[:60]))
+        # a default argument value is ONE object created at definition time and shared by every call and every instance: a
+        # mutable one (constructor call, list / dict / set display) couples evaluations and instances
+        dflt = []
+        for n in ast.walk(mi.tree):
+            if isinstance(n, ast.FunctionDef):
+                for d in list(n.args.defaults) + [k for k in n.args.kw_defaults if k is not None]:
+                    if isinstance(d, (ast.Call, ast.List, ast.Dict, ast.Set, ast.ListComp, ast.DictComp, ast.SetComp)):
+                        dflt.append("line %d: %s(... = %s)" % (n.lineno, n.name, ast.unparse(d)[:50]))
+        chk.add_lemma("frame:no-shared-mutable-defaults:%s" % rel, "proved" if not dflt else "refuted", "effect-analysis", 0.0,
+                      clause="no function of %s has a mutable default argument (one object shared by all calls and instances)" % rel,
+                      func=rel, model=None if not dflt else {"sites": dflt[:8]})
         chk.add_lemma("frame:process-wide-state:%s" % rel, "proved" if not bad else "refuted", "effect-analysis", 0.0,
                       clause="no function of %s (constructors and generators included) changes process-wide interpreter / "
                              "numpy state (error mode, RNG seed, print options, warning filters, environment)" % rel,
